@@ -34,7 +34,7 @@ LEVEL_TEXT = ("Proof (Coq, no axioms): the hash join computes exactly the nested
               "children, parsing the printed token stream returns that tree (token level), and several where clauses "
               "mean conjunction. Lexer, resolver, planner (incl. pivot search), join and evaluation are modelled and "
               "tied to delphin/tsql.py by kernel-checked correspondence over generated databases and queries.")
-LEVEL_NOTE = ("The projection of `*` is a theorem (C11_star_projection). Partial: character-level lexing, planning and the end-to-end select = project(filter(join)) composition "
+LEVEL_NOTE = ("The projection of `*` (C11_star_projection) and the composition project . filter . join of the evaluator (C11_select_is_project_filter_join) are theorems. Partial: character-level lexing and join planning "
               "are covered by correspondence and the independent relational oracle, not by theorems; regex matching is "
               "an oracle; dates/floats not modelled.")
 TECHNIQUE = "Coq proof (join = nested loop, None rules, token-level parse-of-print) + kernel-checked correspondence"
@@ -80,6 +80,11 @@ def _gen_db(rng):
             results.append([p[0], str(k), rng.choice(["[ LTOP: h0 ]", "m", None])])
     if rng.random() < 0.3 and results:
         results.append(list(results[0]))            # duplicate row
+    # relations are not always stored in the order of the rows they link to
+    if rng.random() < 0.3:
+        for rel in (items, parses, results):
+            if rng.random() < 0.6:
+                rng.shuffle(rel)
     rows = {"item": items, "run": runs, "parse": parses, "result": results}
     for name, fields in SCHEMA:
         db.append({"name": name, "fields": fields, "rows": rows[name]})
